@@ -248,20 +248,19 @@ def split_model(I, st, s, sep, n, keep=0):
             chars = chars[:n - 1] + [Str(b''.join(bytes(c) for c in chars[n - 1:]))]
         return I.new_slice(st, 'string', chars)
 
-    def rec(start, parts):
-        def fin(st_, parts=parts):
-            return I.new_slice(st_, 'string', parts + [Str(s[start:])])
+    def rec(st_, start, parts):
         if n > 0 and len(parts) == n - 1:
-            return fin
+            return I.new_slice(st_, 'string', parts + [Str(s[start:])])
         alts = []
         for c, p in index_alts(s, sep, start):
             if p < 0:
-                alts.append((c, fin))
+                alts.append((c, (lambda parts=parts: (lambda s2: I.new_slice(s2, 'string', parts + [Str(s[start:])])))()))
             else:
-                alts.append((c, (lambda p=p: (lambda st_: rec(p + len(sep), parts + [Str(s[start:p + keep])])))()))
-        return as_alts(alts)
-    r = rec(0, [])
-    return r(st) if callable(r) else r
+                alts.append((c, (lambda p=p: (lambda s2: rec(s2, p + len(sep), parts + [Str(s[start:p + keep])])))()))
+        if len(alts) == 1 and alts[0][0] is True:
+            return alts[0][1](st_)
+        return ('alts', alts)
+    return rec(st, 0, [])
 
 
 @model('strings.Split')
